@@ -1275,8 +1275,18 @@ func (g *gstate) genLink(f *flags) *jop {
 			continue
 		}
 		a, b := cp(g.els[i]), cp(g.els[j])
-		a.Rels = append(a.Rels, rel{Rel: g.r.Intn(5), To: b.Pos})
-		b.Rels = append(b.Rels, rel{Rel: g.r.Intn(5), To: a.Pos})
+		// one to three relationships of different types in each direction (several entries with the same To)
+		multi := func(e *elem, to pos) {
+			types := g.shuffled(5)
+			for _, t := range types[:g.r.Pick(1, 1, 2, 2, 3)] {
+				e.Rels = append(e.Rels, rel{Rel: t, To: to})
+			}
+		}
+		multi(&a, b.Pos)
+		multi(&b, a.Pos)
+		if len(a.Rels) > 1 && g.r.Bool() { // not always adjacent in the list
+			a.Rels[0], a.Rels[len(a.Rels)-1] = a.Rels[len(a.Rels)-1], a.Rels[0]
+		}
 		f.link = true
 		return &jop{Op: "post", Elems: []elem{a, b}}
 	}
@@ -2173,9 +2183,12 @@ func corpus() []jcase {
 		// another body, its partner is then moved within its block, then the first one is deleted
 		{Paint0: pt, Ops: []jop{
 			{Op: "post", Elems: []elem{
-				{Pos: pos{25, 1, 1}, Kind: 2, Rels: []rel{{Rel: 2, To: pos{12, 15, 0}}}},
-				{Pos: pos{12, 15, 0}, Kind: 1, Tags: []int{3}, Rels: []rel{{Rel: 1, To: pos{25, 1, 1}}}},
-				{Pos: pos{13, 15, 0}, Kind: 4}}},
+				{Pos: pos{25, 1, 1}, Kind: 2, Rels: []rel{{Rel: 2, To: pos{12, 15, 0}}, {Rel: 4, To: pos{13, 15, 0}}, {Rel: 3, To: pos{12, 15, 0}}}},
+				{Pos: pos{12, 15, 0}, Kind: 1, Tags: []int{3}, Rels: []rel{{Rel: 1, To: pos{25, 1, 1}}, {Rel: 4, To: pos{25, 1, 1}}}},
+				{Pos: pos{13, 15, 0}, Kind: 4, Rels: []rel{{Rel: 4, To: pos{25, 1, 1}}, {Rel: 0, To: pos{25, 1, 1}}, {Rel: 3, To: pos{25, 1, 1}}}},
+				{Pos: pos{30, 2, 2}, Kind: 3, Tags: []int{3}, Rels: []rel{{Rel: 4, To: pos{12, 15, 0}}, {Rel: 2, To: pos{12, 15, 0}}}}}},
+			{Op: "post", Elems: []elem{
+				{Pos: pos{12, 15, 0}, Kind: 1, Tags: []int{3}, Rels: []rel{{Rel: 1, To: pos{25, 1, 1}}, {Rel: 4, To: pos{25, 1, 1}}, {Rel: 4, To: pos{30, 2, 2}}, {Rel: 1, To: pos{30, 2, 2}}}}}},
 			{Op: "move", P: pos{25, 1, 1}, Q: pos{-1, 15, 15}},
 			{Op: "move", P: pos{12, 15, 0}, Q: pos{15, 0, 15}},
 			{Op: "delete", P: pos{-1, 15, 15}, Queries: []jquery{{Q: "region", Off: all, Size: pos{40, 24, 24}}}},
